@@ -120,8 +120,26 @@ func buildAbmfModel(c *Ctx) *abmfModel {
 					continue
 				}
 				if call, ok := stripConv(mu.Value).(*ssa.Call); ok {
-					if obj := calleeObj(&call.Call); obj != nil && obj.Pkg() != nil && obj.Pkg().Path() == "strconv" && strings.HasPrefix(obj.Name(), "Format") {
-						m.stored = call.Call.Args[0]
+					if obj := calleeObj(&call.Call); obj != nil && obj.Pkg() != nil {
+						switch {
+						case obj.Pkg().Path() == "strconv" && (strings.HasPrefix(obj.Name(), "Format") || obj.Name() == "Itoa"):
+							m.stored = call.Call.Args[0]
+						case obj.Pkg().Path() == "fmt" && obj.Name() == "Sprintf" && len(call.Call.Args) == 2:
+							// fmt.Sprintf("%d", x): the decimal rendering of one integer
+							if fs, ok := constString(call.Call.Args[0]); ok && (fs == "%d" || fs == "%v") {
+								if el := variadicElemsOrdered(call.Call.Args[1]); len(el) == 1 {
+									if v := stripConv(el[0]); isIntegerType(v.Type()) {
+										m.stored = v
+									}
+								}
+							}
+						case obj.Pkg().Path() == "fmt" && obj.Name() == "Sprint" && len(call.Call.Args) == 1:
+							if el := variadicElemsOrdered(call.Call.Args[0]); len(el) == 1 {
+								if v := stripConv(el[0]); isIntegerType(v.Type()) {
+									m.stored = v
+								}
+							}
+						}
 					}
 				}
 			}
@@ -198,6 +216,7 @@ func abmfRules(c *Ctx, r *Report, R1, R2, R3, R4, R5, R6 string) {
 	// the granted value: stored into GrantedServiceUnit.CCTotalOctets of a literal built in f
 	var granted ssa.Value
 	var fuiVal ssa.Value
+	var fuiStore *ssa.Store
 	eachInstr(f, func(_ *ssa.BasicBlock, _ int, ins ssa.Instruction) {
 		st, ok := ins.(*ssa.Store)
 		if !ok {
@@ -212,6 +231,7 @@ func abmfRules(c *Ctx, r *Report, R1, R2, R3, R4, R5, R6 string) {
 		}
 		if typeIs(fa.X.Type(), cdtPath, "MultipleServicesCreditControl") && fieldName(fa) == "FinalUnitIndication" {
 			fuiVal = st.Val
+			fuiStore = st
 		}
 	})
 
@@ -248,6 +268,7 @@ func abmfRules(c *Ctx, r *Report, R1, R2, R3, R4, R5, R6 string) {
 		return unchanged
 	}
 	leaves := leavesOf(stripConv(m.stored))
+	pairIn, pairOnEdge := pairFlow(f, m.isAction, m.isType)
 	for i, lf := range leaves {
 		form := fe.eval(lf.val)
 		var aset, tset enumSet
@@ -257,18 +278,23 @@ func abmfRules(c *Ctx, r *Report, R1, R2, R3, R4, R5, R6 string) {
 		} else {
 			aset, tset = m.actionIn[m.putOne.Block()], m.typeIn[m.putOne.Block()]
 		}
-		// enumerate the combinations possible on this edge ("other" stands for every value not compared)
-		avals := enumValues(aset)
-		tvals := enumValues(tset)
+		// enumerate the (action, type) pairs possible on this edge ("other" stands for every
+		// value not compared); pairs are tracked together, so a type established under
+		// one action is not combined with another action
+		var pairs pairSet
+		if lf.from != nil {
+			pairs = pairOnEdge(lf.from, lf.at)
+		} else {
+			pairs = pairIn[m.putOne.Block()]
+		}
 		bad := ""
 		names := map[string]bool{}
-		for _, a := range avals {
-			for _, t := range tvals {
-				ex := expectFor(a, t)
-				names[ex.name] = true
-				if ok, why := ex.ok(form); !ok {
-					bad = fmt.Sprintf("for Requested-Action=%s, CC-Request-Type=%s the statement requires %s but the balance written is %s %s", enumName(a), enumName(t), ex.name, form, why)
-				}
+		for pr := range pairs {
+			a, t := pr[0], pr[1]
+			ex := expectFor(a, t)
+			names[ex.name] = true
+			if ok, why := ex.ok(form); !ok {
+				bad = fmt.Sprintf("for Requested-Action=%s, CC-Request-Type=%s the statement requires %s but the balance written is %s %s", enumName(a), enumName(t), ex.name, form, why)
 			}
 		}
 		k := fmt.Sprintf("%s|balance definition #%d action%s type%s", key, i+1, aset, tset)
@@ -307,7 +333,31 @@ func abmfRules(c *Ctx, r *Report, R1, R2, R3, R4, R5, R6 string) {
 		if fuiVal == nil {
 			r.viol(R1, key+"|final-unit", c.rel(f.Pos()), "no Final-Unit-Indication member is set in the reservation answer")
 		} else {
-			for i, lf := range leavesOf(stripConv(fuiVal)) {
+			leaves := leavesOf(stripConv(fuiVal))
+			// a member assigned under a condition (no merge): the condition is the one that
+			// dominates the assignment, and where it is bypassed the member stays nil
+			if len(leaves) == 1 && leaves[0].from == nil && fuiStore != nil {
+				leaves[0].at = fuiStore.Block()
+				if base := allocBase(fuiStore.Addr); base != nil {
+					if ab, ok := base.(ssa.Instruction); ok && ab.Block() != fuiStore.Block() {
+						avoid := map[*ssa.BasicBlock]bool{fuiStore.Block(): true}
+						if reachableFrom(ab.Block(), nil, nil, avoid)[m.putOne.Block()] {
+							// the edge that bypasses the assignment: the other branch of the test that guards it
+							for _, ib := range f.Blocks {
+								if len(ib.Succs) != 2 || ib.Succs[0] == ib.Succs[1] {
+									continue
+								}
+								for i := 0; i < 2; i++ {
+									if edgeDominates(ib, ib.Succs[i], fuiStore.Block()) && !edgeDominates(ib, ib.Succs[1-i], fuiStore.Block()) && ab.Block().Dominates(ib) {
+										leaves = append(leaves, phiLeaf{val: ssa.NewConst(nil, fuiVal.Type()), from: ib, at: ib.Succs[1-i]})
+									}
+								}
+							}
+						}
+					}
+				}
+			}
+			for i, lf := range leaves {
 				k := fmt.Sprintf("%s|final-unit definition #%d", key, i+1)
 				rel := m.relReqVsBalance(lf)
 				pos := c.rel(f.Pos())
